@@ -7,7 +7,7 @@
    result = ((outcome ...) (event ...) ((qid (sid ...)) ...) (level ...) active)
             outcome per executed action: 0 normal | 1 ExitMainLoop | 2 Exception | 3 SystemExit | 4 blocked | 5 fuel *)
 From Coq Require Import ZArith NArith List Bool.
-From SL Require Import Sx LoopSem LoopProg.
+From SL Require Import Sx LoopSem LoopProg LoopWire.
 Import ListNotations.
 
 Fixpoint as_cmd (fuel : nat) (s : sx) : option cmd :=
@@ -46,33 +46,8 @@ Definition as_action (s : sx) : option action :=
   | _ => None
   end.
 
-Definition of_exn (e : exn) : sx := I (match e with XExit => 1 | XError => 2 | XSysExit => 3 end)%Z.
 Definition of_outcome (o : outcome) : sx :=
   match o with ONormal => I 0%Z | OThrow e => of_exn e | OBlocked => I 4%Z | OFuel => I 5%Z end.
-
-Definition of_event (e : event) : sx :=
-  match e with
-  | EEnq sid q => L [I 0%Z; of_nat sid; of_nat q]
-  | EDropped sid => L [I 1%Z; of_nat sid]
-  | EDispatch sid q d => L [I 2%Z; of_nat sid; of_nat q; of_nat d]
-  | ERequeue sid q => L [I 3%Z; of_nat sid; of_nat q]
-  | EHandler h sid d => L [I 4%Z; of_nat h; of_nat sid; of_nat d]
-  | EHandlerEnd h sid how => L [I 5%Z; of_nat h; of_nat sid; of_opt of_exn how]
-  | EDispatchEnd sid => L [I 6%Z; of_nat sid]
-  | ENewLoopEnter q => L [I 7%Z; of_nat q]
-  | ENewLoopReturn q => L [I 8%Z; of_nat q]
-  | EClosePop q => L [I 9%Z; of_nat q]
-  | EProcEnter w t => L [I 10%Z; of_opt of_nat w; of_nat t]
-  | EProcReturn w t => L [I 11%Z; of_opt of_nat w; of_nat t]
-  | EForceQuit => L [I 12%Z]
-  | EQuitCb a => L [I 13%Z; of_nat a]
-  | ERunEnter => L [I 14%Z]
-  | ERunReturn => L [I 15%Z]
-  | EKill => L [I 16%Z]
-  | EExt sid => L [I 17%Z; of_nat sid]
-  | EMark t => L [I 18%Z; of_nat t]
-  | EUser t a x => L [I 19%Z; of_nat t; of_list of_nat a; of_str x]
-  end.
 
 (* drain order of a queue object: what successive get() calls would return *)
 Fixpoint drain (fuel : nat) (q : equeue) : list nat :=
@@ -81,23 +56,8 @@ Fixpoint drain (fuel : nat) (q : equeue) : list nat :=
   | S f => match q_pop q with Some ((_, _, sg), q') => sg_id sg :: drain f q' | None => [] end
   end.
 
-Definition DRIVER_HID : nat := 0.   (* top-level commands run with the counter slot of handler 0's "count" = 0 *)
-
-Fixpoint run_actions (fuel : nat) (bodies : list (list cmd)) (acts : list action) (s : lstate counters)
-  : list outcome * lstate counters :=
-  match acts with
-  | [] => ([], s)
-  | a :: r =>
-    let '(o, s1) :=
-      match a with
-      | ACmds l => exec (handler_prog bodies) fuel (CProg (compile_cmds 0 l)) s
-      | ARun => exec (handler_prog bodies) fuel CRun s
-      end in
-    match o with
-    | OBlocked | OFuel | OThrow XSysExit => ([o], s1)        (* the session ends here *)
-    | _ => let '(os, s2) := run_actions fuel bodies r s1 in (o :: os, s2)
-    end
-  end.
+Definition top_of (a : action) : top counters :=
+  match a with ACmds l => TProg (compile_cmds 0 l) | ARun => TRun end.
 
 Definition run (s : sx) : sx :=
   match s with
@@ -105,7 +65,7 @@ Definition run (s : sx) : sx :=
     do fuel <- as_nat fu;
     do bodies <- as_list (as_list (as_cmd 50)) bs;
     do actions <- as_list as_action acts;
-    let '(os, st) := run_actions fuel bodies actions (init_state []) in
+    let '(os, st) := run_session (handler_prog bodies) fuel (map top_of actions) (init_state []) in
     L [ of_list of_outcome os;
         of_list of_event (rev (trace st));
         L (map (fun iq => L [of_nat (fst iq); of_list of_nat (drain (S (length (eq_entries (snd iq)))) (snd iq))])
